@@ -294,8 +294,8 @@ impl Prop for C11 {
             }
             Ok(Err(errs)) => {
                 // the reference regex decides whether the generator produced a valid regex
-                for r in &al.rules {
-                    if build_ref(&r.re.reference(&al.flags), &al.flags).is_err() {
+                for (ri, r) in al.rules.iter().enumerate() {
+                    if build_ref(&r.re.reference_top(&al.flags, case.opts.bare_alt.get(ri).copied().unwrap_or(false)), &al.flags).is_err() {
                         o.discard("reference-regex-rejected");
                         return o;
                     }
@@ -311,8 +311,8 @@ impl Prop for C11 {
                 // a size limit in force rejects what the same limit makes the regex crate reject
                 if al.flags.size_limit.is_some() {
                     o.class("size-limit-set");
-                    for r in &al.rules {
-                        if let Err(e) = build_ref(&r.re.reference(&al.flags), &al.flags) {
+                    for (ri, r) in al.rules.iter().enumerate() {
+                        if let Err(e) = build_ref(&r.re.reference_top(&al.flags, case.opts.bare_alt.get(ri).copied().unwrap_or(false)), &al.flags) {
                             if e.contains("size limit") {
                                 o.fail("wrong", "C11/flag-not-in-force/size_limit", format!("accepted although size_limit {:?} makes the regex engine reject `{}`: {e}\n{text}", al.flags.size_limit, r.re.written()));
                                 return o;
@@ -419,6 +419,8 @@ impl Prop for C11 {
         // ---- behavioural regex faithfulness, one-rule projections
         let header = if lay.header_len > 0 { &text[..lay.header_len] } else { "" };
         for (i, ar) in al.rules.iter().enumerate() {
+            // (the projection below writes the rule with `written()`, a top-level alternation in
+            // parentheses: the reference pattern has the same grouping)
             let Ok(rx) = build_ref(&ar.re.reference(&al.flags), &al.flags) else {
                 o.class("reference-regex-rejected");
                 continue;
